@@ -557,7 +557,6 @@ func connPair(o *hx.Out, r *hx.Rng, thr int, both bool) (ok bool) {
 	return !failed
 }
 
-
 // ---------------------------------------------------------------- memory-image cases (kind `mem`):
 // the implementation against the INTERPRETED TRANSLATION of cfb8.go (Model/C10_interp.v), with dst and src
 // as windows of one backing array at any offset from each other (in place, disjoint, PARTIAL overlap),
@@ -835,7 +834,6 @@ func memCases(o *hx.Out, r *hx.Rng) {
 	}
 }
 
-
 // ---------------------------------------------------------------- caller buffers reused between calls:
 // the state of a CFB8 value after a call is (iv, ivPos) only - it must not keep a reference into the
 // caller's dst or src.  (a) after every call the harness scribbles over that call's src and dst buffers;
@@ -920,6 +918,57 @@ func reuseCases(o *hx.Out, r *hx.Rng) {
 }
 
 // ---------------------------------------------------------------- main
+
+// ivCapCases: the IV handed to the constructors is a SLICE of a larger caller-owned buffer (spare capacity behind
+// it), and both directions are built from the same slice - exactly what bot/login.go and server/auth do with the
+// shared secret. The stream's register must be its own copy: the caller's bytes (the IV itself and whatever
+// lies behind it) never change, and two streams built from one slice do not influence each other.
+func ivCapCases(o *hx.Out, r *hx.Rng) {
+	for _, spare := range []int{0, 1, 15, 16, 31, 32, 33, 48, 240, 4080} {
+		for rep := 0; rep < 3; rep++ {
+			key := r.Bytes(r.Pick(16, 24, 32))
+			b, _ := aes.NewCipher(key)
+			back := r.Bytes(16 + spare)
+			snap := append([]byte(nil), back...)
+			iv := back[:16]
+			n := 17 + r.Intn(120)
+			m := r.Bytes(n)
+			enc := CFB8.NewCFB8Encrypt(b, iv)
+			dec := CFB8.NewCFB8Decrypt(b, iv)
+			ec := fragment(r, m)
+			eres, p1 := runSeq(o, enc, ec, "ivcap-enc")
+			var ct []byte
+			for i, x := range eres {
+				ct = append(ct, x.out[:len(ec[i].src)]...)
+			}
+			// a third stream created AFTER the first two have run, from the same caller slice
+			late := CFB8.NewCFB8Decrypt(b, iv)
+			dc := fragment(r, ct)
+			dres, p2 := runSeq(o, dec, dc, "ivcap-dec")
+			var got []byte
+			for i, x := range dres {
+				got = append(got, x.out[:len(dc[i].src)]...)
+			}
+			lres, p3 := runSeq(o, late, []call{{alias: 'd', src: ct, dst: make([]byte, len(ct))}}, "ivcap-late")
+			var lgot []byte
+			if len(lres) == 1 {
+				lgot = lres[0].out[:len(ct)]
+			}
+			o.Eval("aes.ivcap", true, fmt.Sprintf("ivcap spare=%d aes%d n=%d enc=%s dec=%s", spare, len(key)*8, n, describe(ec), describe(dc)))
+			want := refCFB8(b, snap[:16], false, m)
+			switch {
+			case p1 != "" || p2 != "" || p3 != "":
+				o.Fail("C10.ivcap.panic", "spare=%d n=%d panic=%q/%q/%q", spare, n, p1, p2, p3)
+			case !bytes.Equal(ct, want):
+				o.Fail("C10.ivcap.stream", "cap(iv)=%d aes%d n=%d enc=%s: ciphertext differs from AES-CFB8 of the same key and IV", 16+spare, len(key)*8, n, describe(ec))
+			case !bytes.Equal(got, m) || !bytes.Equal(lgot, m):
+				o.Fail("C10.ivcap.roundtrip", "cap(iv)=%d aes%d n=%d enc=%s dec=%s: decrypters built from the same IV slice do not return the message", 16+spare, len(key)*8, n, describe(ec), describe(dc))
+			case !bytes.Equal(back, snap):
+				o.Fail("C10.ivcap.caller-bytes", "cap(iv)=%d n=%d: the caller's buffer holding the IV was modified by the stream", 16+spare, n)
+			}
+		}
+	}
+}
 
 func main() {
 	o := hx.Open()
@@ -1049,5 +1098,6 @@ func main() {
 	}
 	memCases(o, r)
 	reuseCases(o, r)
+	ivCapCases(o, r)
 	o.Note("partially overlapping dst/src (excluded by the cipher.Stream contract): generated for the model-vs-implementation comparison only (kind mem), no predicate")
 }
